@@ -41,6 +41,8 @@ def run(ctx):
     ctx.obligation("whole tool on corpus/c08: %d marked dereferences of guarded results under check spellings outside the generator: reported iff the path has not established err == nil" % nm, nm > 0 and not mbad)
     for b in mbad[:3]:
         ctx.violation("spelling", "C08 fails on the real tool: %s\nreplay: bin/harness analyze -dir corpus/c08\n" % b)
+    # regression programs of repaired findings (error wrapper with several results; checks after nested loops)
+    markers.corpus_modules(ctx, "c08r", "guarded results: repaired findings")
     # M11: the guard-nonce set operations of package guard == model/Nonce.v on random operation sequences
     from . import nonce_suite as NS
     nr = NS.correspond(ctx.seed * 104729 + 8, 2000 if ctx.tier == "quick" else 60000)
